@@ -387,6 +387,195 @@ theorem seqNext_up (m : TickMap) (arrays : List Int) (ts : Nat) (hts : 0 < ts) (
             rw [e]; exact hat
 
 
+/-! ### the search answer as an interval statement over ALL ticks -/
+
+/-- every array start is a multiple of the spacing (valid start indexes are: `validStart_mod`, C12) -/
+def StartsAligned (arrays : List Int) (ts : Nat) : Prop := ∀ (k : Nat) (st : Int), arrays[k]? = some st → st % (ts : Int) = 0
+
+/-- a multiple of the spacing inside an array's span is one of its 88 slots -/
+theorem slot_of (st x : Int) (ts : Nat) (hts : 0 < ts) (hst : st % (ts : Int) = 0) (hx : x % (ts : Int) = 0)
+    (h1 : st ≤ x) (h2 : x < st + 88 * (ts : Int)) : ∃ j : Nat, j < 88 ∧ x = st + (j : Int) * ts := by
+  have htsI : (0 : Int) < ts := by omega
+  have hd : (ts : Int) ∣ x - st := Int.dvd_sub (Int.dvd_of_emod_eq_zero hx) (Int.dvd_of_emod_eq_zero hst)
+  obtain ⟨q, hq⟩ := hd
+  have hq0 : 0 ≤ q := by
+    by_cases hneg : q < 0
+    · have h3 : q ≤ -1 := by omega
+      have h4 : (ts : Int) * q ≤ (ts : Int) * (-1) := Int.mul_le_mul_of_nonneg_left h3 (by omega)
+      omega
+    · omega
+  have hq88 : q < 88 := by
+    by_cases hge : (88 : Int) ≤ q
+    · have h4 : (ts : Int) * 88 ≤ (ts : Int) * q := Int.mul_le_mul_of_nonneg_left hge (by omega)
+      omega
+    · omega
+  refine ⟨q.toNat, by omega, ?_⟩
+  have : ((q.toNat : Nat) : Int) = q := Int.toNat_of_nonneg hq0
+  rw [this, Int.mul_comm]; omega
+
+/-- a→b, as a statement about ALL ticks: the search started at tick `s` in array `idx` returns `r ≤ s`
+    such that NO initialized grid tick lies in (r, s], and `r` itself is initialized or is the sentinel
+    (and then not initialized either, unless it is an initialized slot — which the search would have
+    returned) -/
+theorem seqNext_down_interval (m : TickMap) (arrays : List Int) (ts : Nat) (hts : 0 < ts) (hc : ConsecDown arrays ts)
+    (hal : StartsAligned arrays ts) :
+    ∀ (fuel idx : Nat) (s start : Int), arrays[idx]? = some start → start ≤ s → s < start + 88 * (ts : Int) →
+      MIN_TICK_INDEX ≤ s → fuel + idx ≥ arrays.length →
+      ∃ i r, seqNextInit m arrays ts true fuel s idx = .ok (i, r) ∧ idx ≤ i ∧ r ≤ s ∧
+        (∃ st, arrays[i]? = some st ∧ st ≤ r ∧ r < st + 88 * (ts : Int) ∨ (st ≤ MIN_TICK_INDEX ∧ r = MIN_TICK_INDEX)) ∧
+        (∀ x, r < x → x ≤ s → x % (ts : Int) = 0 → initAt m x = false) ∧
+        (initAt m r = true ∨ r = MIN_TICK_INDEX ∨ (∃ st, arrays[i]? = some st ∧ r = st ∧ i + 1 = arrays.length)) := by
+  have hT : ((TICK_ARRAY_SIZE : Nat) : Int) = 88 := rfl
+  intro fuel
+  induction fuel with
+  | zero =>
+    intro idx s start hidx _ _ _ hf
+    have : idx < arrays.length := by
+      rcases List.getElem?_eq_some_iff.mp hidx with ⟨h, _⟩; exact h
+    omega
+  | succ fuel ih =>
+    intro idx s start hidx h1 h2 hms hf
+    have hlen : idx < arrays.length := by
+      rcases List.getElem?_eq_some_iff.mp hidx with ⟨h, _⟩; exact h
+    have hst := hal idx start hidx
+    obtain ⟨r0, hr0, hans⟩ := arrayNext_down m start ts s hts h1 h2
+    -- every grid tick of this array at or below s is a slot
+    have slots : ∀ x, start ≤ x → x ≤ s → x % (ts : Int) = 0 → ∃ j : Nat, x = start + (j : Int) * ts := by
+      intro x hx1 hx2 hx3
+      obtain ⟨j, _, hj⟩ := slot_of start x ts hts hst hx3 hx1 (by omega)
+      exact ⟨j, hj⟩
+    unfold seqNextInit
+    rw [hidx]
+    simp only [hr0]
+    cases r0 with
+    | some t =>
+      obtain ⟨ht1, ⟨j, hj88, hj⟩, ht3, ht4⟩ := hans
+      refine ⟨idx, t, rfl, Nat.le_refl _, ht1, ⟨start, Or.inl ⟨hidx, ?_, ?_⟩⟩, ?_, Or.inl ht3⟩
+      · rw [hj]; have : (0 : Int) ≤ (j : Int) * ts := Int.mul_nonneg (by omega) (by omega); omega
+      · rw [hj]
+        have : (j : Int) * ts < 88 * (ts : Int) := by
+          have : (j : Int) < 88 := by omega
+          exact Int.mul_lt_mul_of_pos_right this (by omega)
+        omega
+      · intro x hx1 hx2 hx3
+        have hxs : start ≤ x := by
+          rw [hj] at hx1
+          have : (0 : Int) ≤ (j : Int) * ts := Int.mul_nonneg (by omega) (by omega)
+          omega
+        obtain ⟨jx, hjx⟩ := slots x hxs hx2 hx3
+        rw [hjx]; apply ht4 <;> omega
+    | none =>
+      have hnone : ∀ x, start ≤ x → x ≤ s → x % (ts : Int) = 0 → initAt m x = false := by
+        intro x hx1 hx2 hx3
+        obtain ⟨jx, hjx⟩ := slots x hx1 hx2 hx3
+        rw [hjx]; apply hans; omega
+      simp only [Bool.true_and, Bool.not_true, Bool.false_and, Bool.false_eq_true, if_false, hT]
+      by_cases hmin : start ≤ MIN_TICK_INDEX
+      · simp only [hmin, decide_true, if_true]
+        refine ⟨idx, MIN_TICK_INDEX, rfl, Nat.le_refl _, hms, ⟨start, Or.inr ⟨hmin, rfl⟩⟩, ?_, Or.inr (Or.inl rfl)⟩
+        intro x hx1 hx2 hx3
+        exact hnone x (by omega) hx2 hx3
+      · simp only [hmin, decide_false, Bool.false_eq_true, if_false]
+        by_cases hlast : idx + 1 = arrays.length
+        · simp only [hlast, if_true]
+          refine ⟨idx, start, rfl, Nat.le_refl _, h1, ⟨start, Or.inl ⟨hidx, Int.le_refl _, by omega⟩⟩, ?_, Or.inr (Or.inr ⟨start, hidx, rfl, hlast⟩)⟩
+          intro x hx1 hx2 hx3
+          exact hnone x (by omega) hx2 hx3
+        · simp only [hlast, if_false]
+          have hnext : idx + 1 < arrays.length := by omega
+          have hget : arrays[idx + 1]? = some arrays[idx + 1] := List.getElem?_eq_getElem hnext
+          have hst' := hc idx start _ hidx hget
+          obtain ⟨i, r, hrun, hi, hrs, hloc, hno, hkind⟩ :=
+            ih (idx + 1) (start - 1) arrays[idx + 1] hget (by omega) (by omega) (by omega) (by omega)
+          refine ⟨i, r, hrun, by omega, by omega, hloc, ?_, hkind⟩
+          intro x hx1 hx2 hx3
+          by_cases hxs : start ≤ x
+          · exact hnone x hxs hx2 hx3
+          · exact hno x hx1 (by omega) hx3
+
+/-- a grid tick above `start − ts` is at or above `start` -/
+theorem grid_ge (st x : Int) (ts : Nat) (hts : 0 < ts) (hst : st % (ts : Int) = 0) (hx : x % (ts : Int) = 0)
+    (h : st - (ts : Int) < x) : st ≤ x := by
+  have hd : (ts : Int) ∣ x - st := Int.dvd_sub (Int.dvd_of_emod_eq_zero hx) (Int.dvd_of_emod_eq_zero hst)
+  obtain ⟨q, hq⟩ := hd
+  by_cases hneg : q < 0
+  · have h3 : q ≤ -1 := by omega
+    have h4 : (ts : Int) * q ≤ (ts : Int) * (-1) := Int.mul_le_mul_of_nonneg_left h3 (by omega)
+    omega
+  · have : 0 ≤ (ts : Int) * q := Int.mul_nonneg (by omega) (by omega)
+    omega
+
+/-- b→a, as a statement about ALL ticks: the search started at tick `s` returns `r > s` such that no
+    initialized grid tick lies strictly between, and `r` is initialized or the sentinel -/
+theorem seqNext_up_interval (m : TickMap) (arrays : List Int) (ts : Nat) (hts : 0 < ts) (hc : ConsecUp arrays ts)
+    (hal : StartsAligned arrays ts) :
+    ∀ (fuel idx : Nat) (s start : Int), arrays[idx]? = some start → start - (ts : Int) ≤ s → s < start + 88 * (ts : Int) - ts →
+      s < MAX_TICK_INDEX → fuel + idx ≥ arrays.length →
+      ∃ i r, seqNextInit m arrays ts false fuel s idx = .ok (i, r) ∧ idx ≤ i ∧ s < r ∧
+        (∀ x, s < x → x < r → x % (ts : Int) = 0 → initAt m x = false) ∧
+        (initAt m r = true ∨ r = MAX_TICK_INDEX ∨ (∃ st, arrays[i]? = some st ∧ r = st + 88 * (ts : Int) - 1 ∧ i + 1 = arrays.length)) := by
+  have hT : ((TICK_ARRAY_SIZE : Nat) : Int) = 88 := rfl
+  intro fuel
+  induction fuel with
+  | zero =>
+    intro idx s start hidx _ _ _ hf
+    have : idx < arrays.length := by
+      rcases List.getElem?_eq_some_iff.mp hidx with ⟨h, _⟩; exact h
+    omega
+  | succ fuel ih =>
+    intro idx s start hidx h1 h2 hmx hf
+    have hlen : idx < arrays.length := by
+      rcases List.getElem?_eq_some_iff.mp hidx with ⟨h, _⟩; exact h
+    have hst := hal idx start hidx
+    have htsI : (0 : Int) < ts := by omega
+    obtain ⟨r0, hr0, hans⟩ := arrayNext_up m start ts s hts h1 h2
+    -- every grid tick above s and inside this array's span is a slot
+    have slots : ∀ x, s < x → x < start + 88 * (ts : Int) → x % (ts : Int) = 0 → ∃ j : Nat, j < 88 ∧ x = start + (j : Int) * ts := by
+      intro x hx1 hx2 hx3
+      exact slot_of start x ts hts hst hx3 (grid_ge start x ts hts hst hx3 (by omega)) hx2
+    unfold seqNextInit
+    rw [hidx]
+    simp only [hr0]
+    cases r0 with
+    | some t =>
+      obtain ⟨ht1, ⟨j, hj88, hj⟩, ht3, ht4⟩ := hans
+      refine ⟨idx, t, rfl, Nat.le_refl _, ht1, ?_, Or.inl ht3⟩
+      intro x hx1 hx2 hx3
+      have hxt : x < start + 88 * (ts : Int) := by
+        rw [hj] at hx2
+        have : (j : Int) * ts < 88 * (ts : Int) := Int.mul_lt_mul_of_pos_right (by omega) htsI
+        omega
+      obtain ⟨jx, _, hjx⟩ := slots x hx1 hxt hx3
+      rw [hjx]; apply ht4 <;> omega
+    | none =>
+      have hnone : ∀ x, s < x → x < start + 88 * (ts : Int) → x % (ts : Int) = 0 → initAt m x = false := by
+        intro x hx1 hx2 hx3
+        obtain ⟨jx, hj88, hjx⟩ := slots x hx1 hx2 hx3
+        rw [hjx]; apply hans jx hj88; omega
+      simp only [Bool.false_and, Bool.false_eq_true, if_false, Bool.not_false, Bool.true_and, hT]
+      by_cases hmax : start + 88 * (ts : Int) > MAX_TICK_INDEX
+      · simp only [hmax, decide_true, if_true]
+        refine ⟨idx, MAX_TICK_INDEX, rfl, Nat.le_refl _, hmx, ?_, Or.inr (Or.inl rfl)⟩
+        intro x hx1 hx2 hx3
+        exact hnone x hx1 (by omega) hx3
+      · simp only [hmax, decide_false, Bool.false_eq_true, if_false]
+        by_cases hlast : idx + 1 = arrays.length
+        · simp only [hlast, if_true]
+          refine ⟨idx, start + 88 * (ts : Int) - 1, rfl, Nat.le_refl _, by omega, ?_, Or.inr (Or.inr ⟨start, hidx, rfl, hlast⟩)⟩
+          intro x hx1 hx2 hx3
+          exact hnone x hx1 (by omega) hx3
+        · simp only [hlast, if_false]
+          have hnext : idx + 1 < arrays.length := by omega
+          have hget : arrays[idx + 1]? = some arrays[idx + 1] := List.getElem?_eq_getElem hnext
+          have hst' := hc idx start _ hidx hget
+          obtain ⟨i, r, hrun, hi, hrs, hno, hkind⟩ :=
+            ih (idx + 1) (start + 88 * (ts : Int) - 1) arrays[idx + 1] hget (by omega) (by omega) (by omega) (by omega)
+          refine ⟨i, r, hrun, by omega, by omega, ?_, hkind⟩
+          intro x hx1 hx2 hx3
+          by_cases hxs : x < start + 88 * (ts : Int)
+          · exact hnone x hx1 hxs hx3
+          · exact hno x (by omega) hx2 hx3
+
 /-! ### which arrays the builder picks -/
 
 def tia (ts : Nat) : Int := ((TICK_ARRAY_SIZE : Nat) : Int) * ts
